@@ -54,4 +54,23 @@ MUTANTS = [
      "recording_id = self._metadata_key_parser.parse(key).named['id']"),
     ('c10-mem-filter-skipped-when-falsy-values', ['C10'], MEM, "            if metadata:\n                # Filter based on metadata if provided\n                if not TapeCassette",
      "            if metadata and any(metadata.values()):\n                # Filter based on metadata if provided\n                if not TapeCassette"),
+    # ---- C16
+    ('c16-elapsed-days', ['C16'], S3, "days_count = (end_date.date() - start_date.date()).days + 1", "days_count = (end_date - start_date).days + 1"),
+    ('c16-start-exclusive', ['C16'], S3F, "(start_date is None or start_date <= o.last_modified)", "(start_date is None or start_date < o.last_modified)"),
+    ('c16-end-exclusive', ['C16'], S3F, "(end_date is None or o.last_modified <= end_date)", "(end_date is None or o.last_modified < end_date)"),
+    ('c16-skip-first-day', ['C16'], S3, "for i in range(days_count)]", "for i in range(1, days_count + 1)]"),
+    ('c16-end-ignored-when-filter', ['C16'], S3F, "        if content_filter:\n            predicates.append(", "        if content_filter:\n            predicates = []\n            predicates.append("),
+    ('c16-limit-per-day-only', ['C16'], S3, "while count != limit and days_iterators:", "while days_iterators:"),
+    # ---- C15
+    ('c15-close-guard-inverted', ['C15'], S3, "if self.read_only or not self.transient:", "if self.read_only and not self.transient:"),
+    ('c15-close-guard-ignores-readonly', ['C15'], S3, "if self.read_only or not self.transient:", "if not self.transient:"),
+    ('c15-metadata-before-full', ['C15'], S3,
+     "        self._s3_facade.put_string(full_key, compressed_full, StorageClass=storage_class)\n",
+     "        self._s3_facade.put_string(metadata_key, encode(recording.recording_metadata, unpicklable=True))\n        self._s3_facade.put_string(full_key, compressed_full, StorageClass=storage_class)\n"),
+    ('c15-save-no-readonly-assert', ['C15'], S3, "        self._assert_not_read_only()\n\n        full_data = copy(recording.recording_data)", "        full_data = copy(recording.recording_data)"),
+    ('c15-close-deletes-whole-prefix', ['C15'], S3, "full_key = self.FULL_KEY.format(key_prefix=self.key_prefix, id='')\n        metadata_key",
+     "full_key = 'tape_recorder_recordings/' + self.key_prefix\n        metadata_key"),
+    ('c15-close-keeps-metadata', ['C15'], S3, "        self._s3_facade.delete_by_prefix(metadata_key)\n", ""),
+    ('c15-close-prefix-without-slash', ['C15'], S3, "metadata_key = self.METADATA_KEY.format(key_prefix=self.key_prefix, id='')\n        _logger.info(u'Deleting all full",
+     "metadata_key = self.METADATA_KEY.format(key_prefix=self.key_prefix.rstrip('/'), id='')\n        _logger.info(u'Deleting all full"),
 ]
